@@ -105,10 +105,15 @@ def check(A):
     except AnalysisError:
         pass
     MESSAGE = consts['MESSAGE']
-    init = A.func('packet.Packet.__init__')
-    enc = A.func('packet.Packet.encode')
-    dec = A.func('packet.Packet.decode')
+    init_state = constructor_cases(A, MESSAGE)
+    encode_cases(A, init_state)
+    decode_cases(A, MESSAGE)
+    json_module(A)
 
+
+
+def constructor_cases(A, MESSAGE, record=True):
+    init = A.func('packet.Packet.__init__')
     # ------------------------------------------------------------------ constructor
     init_state = {}
     for t in range(7):
@@ -149,9 +154,14 @@ def check(A):
                     init_state[k] = st
     A.sample({'case': 'Packet(type=4, data:bytes)', 'expect': 'binary=True, accepted'})
 
+    return init_state
+
+
+def encode_cases(A, init_state, prefix='C01'):
+    enc = A.func('packet.Packet.encode')
     # default channel of encode(): WebSocket writers call encode() without arguments
     d = enc.defaults().get('b64')
-    A.check(d is not None and is_literal(d, False), 'C01.default-channel',
+    A.check(d is not None and is_literal(d, False), prefix + '.default-channel',
             'encode() without arguments encodes for the binary-capable channel (b64=False)',
             A.site(enc), key='encode-default', detail=txt(d),
             behaviour='WebSocket frames carry base64 text instead of binary data')
@@ -165,7 +175,7 @@ def check(A):
         for e in p.events:
             if e.kind == 'write' and e.depth == 0:
                 state_attrs.add(txt(e.target))
-    A.floor('C01.encode', 'encode paths', len(ps0), 4)
+    A.floor(prefix + '.encode', 'encode paths', len(ps0), 4)
     n_trans = 0
     for k in KINDS:
         binary = k in ('bytes', 'bytearray')
@@ -185,13 +195,13 @@ def check(A):
                     if v is not None:
                         asm[a] = v
                 en = A.enum(assume=assume_from(asm))
-                ps = only_path(A, A.paths(en, enc), 'C01.encode', (k, b64), A.site(enc))
+                ps = only_path(A, A.paths(en, enc), prefix + '.encode', (k, b64), A.site(enc))
                 want = ('b64' if b64 else 'raw') if binary else TEXT_TAG[k]
                 seq = hist + ('encode(b64=%s)' % b64,)
                 what = '%s payload, %s returns the %s form' % (k, ' then '.join(seq), want)
                 for p in ps:
                     if p.outcome != 'return':
-                        A.violated('C01.encode', what, A.site(enc), key='encode-raises:%s' % k,
+                        A.violated(prefix + '.encode', what, A.site(enc), key='encode-raises:%s' % k,
                                    detail=describe(p), behaviour=BEHAV)
                         continue
                     ret = p.value
@@ -204,12 +214,12 @@ def check(A):
                         tag = classify_term(ret)
                         src = 'term ' + parts_text(flatten_concat(ret))
                     if tag is None:
-                        A.undecided('C01.encode', what, A.site(enc),
+                        A.undecided(prefix + '.encode', what, A.site(enc),
                                     'return value %s is not a recognised wire term' % rt)
                         continue
                     key = 'encode-cache:%s' % ('binary' if binary else k) if src.startswith(
                         'cached') else 'encode-term:%s:%s' % (k, 'b64' if b64 else 'raw')
-                    A.check(tag == want, 'C01.cache' if src.startswith('cached') else 'C01.wire',
+                    A.check(tag == want, prefix + '.cache' if src.startswith('cached') else prefix + '.wire',
                             what, A.site(enc, p.events[-1].node if p.events else None), key=key,
                             detail=['got %s: %s' % (tag, src)] + describe(p),
                             behaviour=('Payload.encode() concatenates raw bytes into a text body '
@@ -234,6 +244,10 @@ def check(A):
     A.notes.append('encode: %d abstract (state, channel) transitions explored to a fixpoint'
                    % n_trans)
 
+
+
+def decode_cases(A, MESSAGE):
+    dec = A.func('packet.Packet.decode')
     # ------------------------------------------------------------------ decode
     loads_t = 'self.json.loads(encoded_packet[1:])'
     inputs = [
@@ -327,6 +341,10 @@ def check(A):
                                        'decoded'))
     A.sample({'case': "decode(text digit+rest, JSON value kind bool)", 'expect': 'text stays text'})
 
+
+
+def json_module(A):
+    m = A.model
     # ------------------------------------------------------------------ engineio.json
     jm = m.module('json')
     loads = jm.functions.get('loads')
